@@ -306,7 +306,7 @@ func runC13Hist(t *testing.T, c CacheHistCase) (*h.Violation, h.Info) {
 var c13hist = &h.Campaign[CacheHistCase]{
 	Prop: "C13", Sub: "history",
 	Rule: "rapid: store histories (initial fetch, lookups, service changes + polls through the store's own poller, reads, clock advances, Close + restart from the cache) with a recording cache; every document written is decoded strictly, compared with the model (every known secret, latest version/bytes, current last-access stamp), fed to a second store whose service is unreachable and to NewFileClient; writes are demanded at initial fetch, after an installing poll, after a lookup and when the poller stops; in a quarter of the cases Cache.Read or generated Cache.Write calls fail and the store must keep serving; non-trivial = a restart that follows a lookup/read, or injected cache faults; distinct by scenario",
-	Quick: 1500, Thorough: 80000,
+	Quick: 1500, Thorough: 400000,
 	Gen: func(rt *rapid.T) CacheHistCase {
 		c := CacheHistCase{Declared: rapid.SampledFrom([][]string{{"d1"}, {"d1", "d2"}, {"d1", "empty"}}).Draw(rt, "declared")}
 		c.Ops = rapid.SliceOfN(rapid.Custom(func(rt *rapid.T) COp {
@@ -582,7 +582,7 @@ func runC13Doc(t *testing.T, d DocCase) (*h.Violation, h.Info) {
 var c13doc = &h.Campaign[DocCase]{
 	Prop: "C13", Sub: "documents",
 	Rule: "rapid: cache contents built as a top-level object of 0-4 entries over keys {a,b (declared), u,v (undeclared), \"\"} (duplicates possible), each entry drawn from 33 templates labelled valid / grey (extra, duplicate, case-variant or missing optional fields - either outcome allowed) / malformed (null or non-object entry, missing or null secret, wrong JSON types, bad base64, out-of-range version, non-numeric stamp), or a non-object top level (null, array, string, number, garbage), optionally with trailing bytes or cut to a proper prefix; oracle: never a panic or failed start; values come from the service or from a cache entry; all-or-nothing; malformed => ignored as a whole; valid => used; non-trivial = a malformed document on which JSON unmarshalling succeeds, a prefix, or a non-empty valid document; distinct by rendered bytes",
-	Quick: 6000, Thorough: 400000,
+	Quick: 6000, Thorough: 3000000,
 	Gen: func(rt *rapid.T) DocCase {
 		d := DocCase{Top: rapid.SampledFrom([]string{"object", "object", "object", "object", "object", "object", "object", "object", "null", "array", "string", "number", "empty", "garbage"}).Draw(rt, "top")}
 		n := rapid.IntRange(0, 4).Draw(rt, "n")
